@@ -95,7 +95,10 @@ def spec_conv1d(q, a, p):
 
 
 def spec_conv2d(q, a, p):
-  out = T("stock.convolution_op", X, q["kernel"](a["kernel"]))
+  k = q["kernel"](a["kernel"])
+  if a.get("_mask") is not None:
+    k = T("mult", k, a["_mask"])          # masked kernel (QConv2D's own extension): mask applied to the quantized kernel
+  out = T("stock.convolution_op", X, k)
   if p["use_bias"]:
     out = T("K.bias_add", out, q["bias"](a["bias"]), data_format=hp("data_format"))
   return act_wrap(out, p)
@@ -178,10 +181,17 @@ def cases(tier):
       dense_like(QC + "QConv1D", "QConv1D", [("kernel", "kernel_quantizer"), ("bias", "bias_quantizer")], spec_conv1d,
                  extra_attrs={"strides": (hp("s0"),), "padding": hp("padding"), "data_format": hp("data_format"),
                               "dilation_rate": (hp("d0"),)}), 2, 1)
-  add(QC + "QConv2D.call", "QConv2D",
-      dense_like(QC + "QConv2D", "QConv2D", [("kernel", "kernel_quantizer"), ("bias", "bias_quantizer")], spec_conv2d,
-                 extra_attrs={"_mask": None, "groups": 1, "data_format": hp("data_format"),
-                              "convolution_op": Builtin("convolution_op", lambda ip, x, k: Term("stock.convolution_op", (x, k)))}), 2, 1)
+  for groups in (1, 2):
+    for mask in (None, Term("mask")):
+      tag = "QConv2D.call[groups%d%s]" % (groups, "" if mask is None else ",mask")
+      for p in patterns(2):
+        if not p["use_bias"] and p["q"][1]:
+          continue
+        mk = dense_like(QC + "QConv2D", "QConv2D", [("kernel", "kernel_quantizer"), ("bias", "bias_quantizer")], spec_conv2d,
+                        extra_attrs={"_mask": mask, "groups": groups, "data_format": hp("data_format"),
+                                     "convolution_op": Builtin("convolution_op", lambda ip, x, k: Term("stock.convolution_op", (x, k)))})
+        out.append(Case(PROP, QC + "QConv2D.call", "g%d_m%d_%s" % (groups, mask is not None, pname(p)), mk(p),
+                        replay_kind=None, assumptions=ASSUME, term_mode=True))
   add(QC + "QDepthwiseConv2D.call", "QDepthwiseConv2D",
       dense_like(QC + "QDepthwiseConv2D", "QDepthwiseConv2D",
                  [("depthwise_kernel", "depthwise_quantizer"), ("bias", "bias_quantizer")], spec_depthwise,
